@@ -43,7 +43,13 @@ DIRECT_METHODS = ("reboot", "bootload")
 ALIGN_PROFILE = Profile(latency=(0, 1, 25))
 
 REQUESTS = ["V", "v", "R", "QG", "QM", "S2,0,4", "C,1,2", "SM,10,1,1", "  SM,10,1,1  ",
-            "QL,3\r", "\tEM,1,1", "QT", "RB", "BL", "ST,Pen  Plotter", " ST,a\tb "]
+            "QL,3\r", "\tEM,1,1", "QT", "RB", "BL", "ST,Pen  Plotter", " ST,a\tb ",
+            # long low-level moves: trimmed lengths 63, 64, 65 and 128 (a USB packet is 64 bytes)
+            "LM," + ",".join(["1234567890"] * 5) + ",12345",
+            "  LM," + ",".join(["1234567890"] * 5) + ",123456 ",
+            "LM," + ",".join(["1234567890"] * 5) + ",1234567",
+            "L3," + ",".join(["-123456789"] * 11) + ",1234"]
+assert [len(r.strip()) for r in REQUESTS[-4:]] == [63, 64, 65, 128]
 EXEMPT = ("rb", "r", "bl")              # I/O exceptions deliberately ignored (board leaves the bus)
 FAILING_CONTENT = ("wrong", "shifted", "err", "nameerr")
 
@@ -77,9 +83,10 @@ def run_primitive(chooser, kind, request):
     if exc is not None:
         viols.append((f"raise:{ckey}", f"{where}: raised {type(exc).__name__}: {exc}"))
     want = (stripped + "\r").encode("ascii")
-    if port.write_attempts != [want]:
+    if b"".join(port.write_attempts) != want:
+        # the bytes on the wire decide (a request may be handed over in several pieces)
         viols.append((f"framing:{ckey}", f"{where}: handed {port.write_attempts!r} to the port, "
-                      f"expected exactly one write of {want!r}"))
+                      f"expected the bytes {want!r}, once"))
     if port.reads > 26:
         viols.append((f"reads:{ckey}", f"{where}: {port.reads} reads, more than 1 + 25 retries"))
     # reference verdict from the environment script (not from what the library chose to read)
